@@ -26,6 +26,7 @@ import contextlib
 import functools
 import io
 import operator
+import re
 
 from hypothesis import strategies as st
 
@@ -60,15 +61,15 @@ ASSUMPTIONS = [
 ]
 LEVEL = "exploration"
 
-T_BUDGET = 24  # leaf-observations budget per traced compile (tracing costs ~5 ms per leaf and pattern)
+T_BUDGET = 12  # leaf-observations budget per traced compile (tracing costs 0.1-0.7 s per leaf and pattern)
 
 
 # ---------------------------------------------------------------------------------- plan
 def plan(tier):
     if tier == "quick":
-        n_t, per_t, n_b, per_b, n_c = 11, 30, 2, 45, 3
+        n_t, per_t, n_b, per_b, n_c = 11, 40, 2, 25, 3
     else:
-        n_t, per_t, n_b, per_b, n_c = 56, 260, 8, 400, 3
+        n_t, per_t, n_b, per_b, n_c = 56, 260, 8, 400, 8
     shards = [{"kind": "hyp", "name": f"type{i}", "examples": per_t, "what": "type"} for i in range(n_t)]
     shards += [{"kind": "hyp", "name": f"bf{i}", "examples": per_b, "what": "bitfield"} for i in range(n_b)]
     shards += [{"kind": "enum", "name": f"catalog{i}", "part": i, "parts": n_c, "tier": tier} for i in range(n_c)]
@@ -132,7 +133,8 @@ def _catalog():
 
 
 def enumerate(shard):
-    cat = _catalog()
+    # quick tier: the catalogue entries of at most 8 bits (256 patterns each); thorough: all (<= 10 bits)
+    cat = [s for s in _catalog() if shard.get("tier") != "quick" or L.width(s) <= 8]
     for i, spec in builtins.enumerate(cat):
         if i % shard["parts"] == shard["part"]:
             yield {"kind": "type", "spec": spec, "draws": [], "catalog": True}
@@ -156,18 +158,34 @@ class _Rej(Exception):
 def _call(step, fn, *a):
     """call into cohdl; any exception is a rejection of that step"""
     try:
-        with _quiet():
-            return fn(*a)
+        return fn(*a)  # stdout is redirected once around the whole check (see check())
     except (KeyboardInterrupt, SystemExit, RecursionError, MemoryError):
         raise
     except Exception as e:  # noqa: BLE001
         raise _Rej(step, e) from None
 
 
-def _bits(w, value):
-    from cohdl import BitVector
+class _Co:
+    """cohdl names, imported once (function-level imports cost ~1 us each, millions of calls)"""
 
-    return BitVector[w](format(value, f"0{w}b"))
+    ready = False
+
+    @classmethod
+    def load(cls):
+        if not cls.ready:
+            import cohdl
+            from cohdl import Bit, BitVector, Signed, Unsigned
+            from cohdl._core._type_qualifier import TypeQualifierBase
+
+            cls.Bit, cls.BitVector, cls.Signed, cls.Unsigned = Bit, BitVector, Signed, Unsigned
+            cls.Boolean = cohdl.Boolean
+            cls.TQB = TypeQualifierBase
+            cls.ready = True
+        return cls
+
+
+def _bits(w, value):
+    return _Co.load().BitVector[w](format(value, f"0{w}b"))
 
 
 def _signed(raw, w):
@@ -175,8 +193,8 @@ def _signed(raw, w):
 
 
 def _const_leaf(leaf, raw):
-    from cohdl import Bit, Signed, Unsigned
-
+    c = _Co.load()
+    Bit, Signed, Unsigned = c.Bit, c.Signed, c.Unsigned
     k = leaf["k"]
     if k == "bit":
         return Bit(bool(raw))
@@ -213,10 +231,8 @@ class _NonConst(Exception):
 
 def _norm(obj, leaf, allow_qualified=False):
     """(raw unsigned value, type_ok) of an observed leaf"""
-    import cohdl
-    from cohdl import Bit, BitVector, Signed, Unsigned
-    from cohdl._core._type_qualifier import TypeQualifierBase
-
+    c = _Co.load()
+    Bit, BitVector, Signed, Unsigned, TypeQualifierBase = c.Bit, c.BitVector, c.Signed, c.Unsigned, c.TQB
     if isinstance(obj, TypeQualifierBase) and not allow_qualified:
         raise _NonConst()
     d = TypeQualifierBase.decay(obj)
@@ -226,7 +242,7 @@ def _norm(obj, leaf, allow_qualified=False):
             return None, False
         return int(bool(d)), True
     if k == "bool":
-        if not isinstance(d, (bool, cohdl.Boolean)):
+        if not isinstance(d, (bool, c.Boolean)):
             return None, False
         return int(bool(d)), True
     w = L.width(leaf)
@@ -239,8 +255,8 @@ def _norm(obj, leaf, allow_qualified=False):
 
 
 def _vec_value(obj, allow_qualified=False):
-    from cohdl import BitVector
-    from cohdl._core._type_qualifier import TypeQualifierBase
+    c = _Co.load()
+    BitVector, TypeQualifierBase = c.BitVector, c.TQB
 
     if isinstance(obj, TypeQualifierBase) and not allow_qualified:
         raise _NonConst()
@@ -280,7 +296,10 @@ class _TypeChecker:
         self.out.counters[name] = self.out.counters.get(name, 0) + n
 
     def finding(self, law, level, where, detail):
-        self.out.add({"law": law, "level": level, "top": _top(self.spec), "where": where}, detail)
+        # provisional signature; _blame() below replaces law/top/where by the root-cause triple
+        # (level, direction, smallest sub-type that fails on its own)
+        self.out.add({"law": law, "level": level, "top": _top(self.spec), "where": where},
+                     f"[{law} at {where}] " + detail)
 
     # compare one observation bundle against the reference for pattern b
     def cmp_leaves(self, law, level, lv, b, tag=""):
@@ -383,7 +402,7 @@ class _TypeChecker:
     # ------------------------------------------------------------------ level T
     def level_t(self, mod, pats):
         nleaf = max(1, len(self.table))
-        k = max(1, min(len(pats), T_BUDGET // nleaf, 6))
+        k = max(1, min(len(pats), T_BUDGET // nleaf, 3))
         # spread over the pattern list, always keeping drawn patterns (at the end)
         sel = pats[-k:] if len(pats) > k else pats
         mod.PATS[:] = [_bits(self.w, b) for b in sel]
@@ -424,16 +443,84 @@ class _TypeChecker:
         except Rejected as r:
             self.out.labels.append(f"S_rejected:{r.exc_type}")
             return False
-        low = vhdl.lower()
         need = ["o1"] + [f"l{n}" for n in range(len(self.table))]
-        missing = [p for p in need if p not in low]
-        if missing:
-            self.finding("sim_entity", "S", "ports", f"accepted round-trip entity lacks ports {missing}")
+        missing = [p for p in need if not re.search(rf"\b{p}\s*:\s*out\b", vhdl)]
+        if missing:  # not a law of C17: recorded for the simulated level, which needs these ports
+            self.out.labels.append("S_ports_missing")
         self.count("S_compiled")
         return True
 
 
+_DIR = {"count": "count", "tf": "to_bits", "tf_type": "to_bits", "to_layout": "to_bits", "to_layout_type": "to_bits",
+        "width": "to_bits", "from_layout": "from_bits", "from_layout_type": "from_bits", "ft": "from_bits",
+        "ft_type": "from_bits", "make_leaves": "construct", "make_leaves_type": "construct", "sim_entity": "sim"}
+
+
+def _children(spec):
+    k = spec["k"]
+    if k in ("carr", "sarr", "ser"):
+        return [spec["e"]]
+    if k == "rec":
+        return [{kk: vv for kk, vv in fs.items() if kk != "via"} for _, fs in L.rec_fields(spec)]
+    if k in ("enum", "flag"):
+        return [spec["u"]]
+    return []
+
+
+def _p_fail_dirs(spec):
+    """directions in which `spec` on its own violates a law at level P (few patterns)"""
+    out = Outcome()
+    try:
+        mod = load_module(G.render_type_module(spec))
+    except (KeyboardInterrupt, SystemExit, RecursionError, MemoryError, SyntaxError):
+        raise
+    except Exception:  # noqa: BLE001
+        return set()
+    try:
+        chk = _TypeChecker({"spec": spec}, out)
+        w = L.width(spec)
+        pats = list(range(1 << w)) if w <= 5 else G.patterns_for(w, [])[:28]
+        chk.level_p(mod, pats)
+    finally:
+        unload_module(mod)
+    return {_DIR.get(f["signature"]["law"], f["signature"]["law"]) for f in out.findings}
+
+
+def _minimal_node(spec, direction, depth=0):
+    """kind of the smallest sub-type that fails in `direction` by itself (root-cause locator)"""
+    for ch in _children(spec):
+        if depth < 6 and direction in _p_fail_dirs(ch):
+            return _minimal_node(ch, direction, depth + 1)
+    return spec["k"]
+
+
+def _blame(spec, out):
+    """rewrite provisional signatures into (level, direction, node)"""
+    cache = {}
+    p_dirs = {_DIR.get(f["signature"]["law"], f["signature"]["law"]) for f in out.findings
+              if f["signature"].get("level") == "P" and "law" in f["signature"]}
+    for f in out.findings:
+        sig = f["signature"]
+        if "law" not in sig:
+            continue
+        d = _DIR.get(sig["law"], sig["law"])
+        if sig["level"] == "P" or d in p_dirs:
+            if d not in cache:
+                cache[d] = _minimal_node(spec, d)
+            node = cache[d]
+        else:
+            node = "top:" + spec["k"]  # only the traced / structural level disagrees
+        f["signature"] = {"level": sig["level"], "dir": d, "node": node}
+
+
 def _check_type(case):
+    out = _check_type_inner(case)
+    if out.findings:
+        _blame(case["spec"], out)
+    return out
+
+
+def _check_type_inner(case):
     out = Outcome()
     spec = case["spec"]
     kinds = L.kinds(spec)
@@ -445,6 +532,7 @@ def _check_type(case):
     for k in sorted(kinds - {"bit", "bool", "bv", "u", "s"}):
         out.labels.append("has:" + k)
     out.labels.append("uneven" if L.uneven(spec) else "even")
+    out.counters["cases.all." + _top(spec)] = 1
     src = G.render_type_module(spec)
     try:
         with _quiet():
@@ -472,16 +560,21 @@ def _check_type(case):
             out.status = "rejected"
             return out
         out.labels.append("P_ok")
-        # tracing costs 0.1-0.7 s per leaf member: levels T and S run on every type with <= 8
-        # leaves and on a hash-selected quarter of the larger ones (<= 30 leaves)
+        chk.count("cases.P." + _top(spec))
+        # tracing costs 0.1-0.7 s per leaf member and pattern (level P: ~1 ms): levels T and S run
+        # on a hash-selected third of the generated types (<= 30 leaves) and an eighth of the catalogue
         nleaf = len(chk.table)
-        if nleaf <= 8 or (nleaf <= 30 and int(out.identity, 16) % 4 == 0):
+        h = int(out.identity, 16)
+        if nleaf <= 30 and (h % 8 == 0 if case.get("catalog") else h % 3 == 0):
+            chk.count("cases.TS_tried." + _top(spec))
             if chk.level_t(mod, pats):
                 out.labels.append("T_ok")
+                chk.count("cases.T." + _top(spec))
             if chk.level_s(mod):
                 out.labels.append("S_compiled")
+                chk.count("cases.S." + _top(spec))
         else:
-            out.labels.append("T_S_skipped_large")
+            out.labels.append("T_S_skipped")
         out.nontrivial = depth >= 2 and L.uneven(spec)
         return out
     finally:
@@ -515,8 +608,12 @@ def _check_bitfield(case):
     def cnt(name, n=1):
         out.counters[name] = out.counters.get(name, 0) + n
 
+    _LAW = {"bf_from_bits": "bf_read", "bf_from_bits_type": "bf_read_type", "bf_to_bits": "bf_vector",
+            "bf_roundtrip": "bf_vector"}
+
     def finding(law, level, ftype, nested, detail):
-        out.add({"law": law, "level": level, "ftype": ftype, "nested": nested}, detail)
+        # root cause = (read / write / whole-vector path, level, directly declared or inside a sub-bitfield)
+        out.add({"law": _LAW.get(law, law), "level": level, "nested": nested}, f"[{law}, field kind {ftype}] " + detail)
 
     def cmp_fields(level, law, objs, b, allow_q=False):
         for obj, (path, t, hi, lo) in zip(objs, leaves):
@@ -670,28 +767,38 @@ def _check_bitfield(case):
             out.labels.append(f"T_rejected:{r.exc_type}")
             t_ok = False
         if t_ok and len(mod.RES) == len(sel):
-            try:
-                for (i, n_t, tb, fx, fy, tby), b in zip(mod.RES, sel):
-                    if n_t != W:
-                        finding("count", "T", "vec", False, f"count_bits = {n_t}, declared width {W}")
-                    cmp_fields("T", "bf_read", fx, b, allow_q=False)
-                    cmp_fields("T", "bf_from_bits", fy, b, allow_q=False)
-                    cmp_vec("T", "bf_to_bits", tb, b, "to_bits(bitfield)")
-                    cmp_vec("T", "bf_roundtrip", tby, b, "to_bits(from_bits[BF](b))")
+            nonconst = set()
+
+            def guarded(what, fn, *a, **kw):
+                try:
+                    fn(*a, **kw)
+                except _NonConst:
+                    # e.g. to_bits(bitfield) builds a Temporary: a run-time object inside a traced
+                    # context, not observable without a simulator
+                    nonconst.add(what)
+
+            for (i, n_t, tb, fx, fy, tby), b in zip(mod.RES, sel):
+                if n_t != W:
+                    finding("count", "T", "vec", False, f"count_bits = {n_t}, declared width {W}")
+                guarded("fields", cmp_fields, "T", "bf_read", fx, b, allow_q=False)
+                guarded("fields_from_bits", cmp_fields, "T", "bf_from_bits", fy, b, allow_q=False)
+                guarded("to_bits", cmp_vec, "T", "bf_to_bits", tb, b, "to_bits(bitfield)")
+                guarded("to_bits", cmp_vec, "T", "bf_roundtrip", tby, b, "to_bits(from_bits[BF](b))")
+            for what in sorted(nonconst):
+                out.labels.append(f"T_nonconst:{what}")
+            if "fields" not in nonconst:
                 out.labels.append("T_ok")
-                cnt("T_patterns", len(sel))
-            except _NonConst:
-                out.labels.append("T_nonconst")
+            cnt("T_patterns", len(sel))
         elif t_ok:
             out.labels.append("T_probe_incomplete")
 
         # ---- level S, structural
         try:
-            vhdl = compile_entity(mod.Sim).lower()
+            vhdl = compile_entity(mod.Sim)
             need = ["o1"] + [f"r{n}" for n in range(len(leaves))] + [f"w{n}" for n in range(len(leaves))]
-            missing = [p for p in need if p not in vhdl]
+            missing = [p for p in need if not re.search(rf"\b{p}\s*:\s*out\b", vhdl)]
             if missing:
-                finding("sim_entity", "S", "ports", False, f"accepted bitfield entity lacks ports {missing}")
+                out.labels.append("S_ports_missing")
             out.labels.append("S_compiled")
         except Rejected as r:
             out.labels.append(f"S_rejected:{r.exc_type}")
@@ -704,9 +811,10 @@ def _check_bitfield(case):
 
 # ---------------------------------------------------------------------------------- entry points
 def check(case):
-    if case["kind"] == "bitfield":
-        return _check_bitfield(case)
-    return _check_type(case)
+    with _quiet():  # cohdl prints diagnostics when it rejects something
+        if case["kind"] == "bitfield":
+            return _check_bitfield(case)
+        return _check_type(case)
 
 
 def render_sim_entity(typespec):
